@@ -71,6 +71,10 @@ def _run_variant(args):
             ok = bool(new) or (bool(analysis_error) and v.get("error_ok", False))
             if ok and v.get("expect_key"):
                 ok = any(v["expect_key"] in k for _r, k in new)
+        elif v["kind"] == "repair":
+            # a variant that repairs an open finding: the finding must disappear and nothing new may appear
+            gone = base_keys - keys
+            ok = any(v["expect_key"] in k for _r, k in gone) and not new and not analysis_error
         else:
             ok = not new and not analysis_error
         return {
@@ -102,7 +106,7 @@ def selftest_for_check(prop: str) -> dict:
         "skipped": [r["name"] for r in results if r["status"] == "skipped"],
         "failed": [r["name"] for r in failed],
         "firing_ok": sum(1 for r in results if r["status"] == "ok" and r.get("kind") == "fire"),
-        "benign_ok": sum(1 for r in results if r["status"] == "ok" and r.get("kind") == "benign"),
+        "benign_ok": sum(1 for r in results if r["status"] == "ok" and r.get("kind") in ("benign", "repair")),
     }
 
 
